@@ -1,5 +1,6 @@
 //! Test harness for `hls_m3u8`: line protocol of /verif/PROTOCOL.md executed
 //! against the real library.
+pub mod builders;
 pub mod hexs;
 pub mod kinds;
 pub mod obs;
